@@ -26,7 +26,7 @@ ASSUMPTIONS = [
     "cost vectors restricted to spe + 2*sloss <= dup + 2*floss (F-COHERENCE)",
     "ete3 tree container; CPython",
 ]
-BUDGET = {"quick": 300, "thorough": 3300}
+BUDGET = {"quick": 900, "thorough": 3300}
 
 
 def worker_init():
